@@ -136,3 +136,15 @@ def open_vmdk_sparse(files, opaque, p):
     if parent is not None:
         obj.disks[0].parent = parent
     return obj
+
+
+class _PartialRunsProbe:
+    def partial_runs(self, hexdata, start, length):
+        from dissect.hypervisor.disk.vhdx import _iter_partial_runs
+
+        return list(_iter_partial_runs(bytes.fromhex(hexdata), start, length))
+
+
+@register("vhdx_partial_runs")
+def open_partial_runs(files, opaque, p):
+    return _PartialRunsProbe()
